@@ -57,6 +57,7 @@ struct C05 : RBase {
         B.push_back(forl("r7", ilit(1), ilit(2), {forall("z8", var("tb", "tabint"), {let("z8", r.chance(0.4) ? var("ic") : r.chance(0.5) ? ilit(7) : mth("at", var("ta", "tabint"), {ilit(0)}))}), print({slit("ic="), var("ic"), slit(" tb0="), mth("at", var("tb", "tabint"), {ilit(0)})})})); break;
       case 29: { // a string constant of the program text as the receiver of an in-place method, evaluated repeatedly
         json recv = slit("lit"); json st;
+        if (r.chance(0.3)) { recv = json{{"k", "null"}, {"t", ""}}; st = print({mth("concat", recv, {r.chance(0.5) ? slit("!") : ilit(33)}, "str")}); B.push_back(forl("r8", ilit(1), ilit(3), {st})); break; }   // the null constant as receiver
         switch (r.below(4)) { case 0: st = print({mth("concat", recv, {r.chance(0.5) ? slit("!") : ilit(33)}, "str")}); break; case 1: st = print({mth("insert", recv, {ilit(0), r.chance(0.5) ? ilit(65) : slit("ab")}, "str")}); break;
                               case 2: st = print({mth("put", recv, {ilit(0), ilit(66)}, "str")}); break; default: st = print({mth("delete", recv, {ilit(0)}, "str")}); break; }
         B.push_back(forl("r8", ilit(1), ilit(3), {st})); break; }
